@@ -265,6 +265,7 @@ int run_incl(const EF& a, const EF& b, long alg, long via) {
 	if (alg == 0) { ip.SetAlgorithm(VATA::InclParam::e_algorithm::antichains); o["alg"] = "antichains"; }
 	else { ip.SetAlgorithm(VATA::InclParam::e_algorithm::congruences); o["alg"] = "congr"; ip.SetSearchOrder(alg == 1 ? VATA::InclParam::e_search_order::depth : VATA::InclParam::e_search_order::breadth); o["order"] = alg == 1 ? "depth" : "breadth"; }
 	try {
+		if (via == 2) return EF::CheckInclusion(a, b) ? 1 : 0;                  // default parameters
 		if (via == 0) return EF::CheckInclusion(a, b, ip) ? 1 : 0;
 		Arguments args; args.options = o; return ::CheckInclusion<EF>(a, b, args) ? 1 : 0;
 	} catch (const VATA::NotImplementedException&) { count(c_notimpl_thrown); return 2; }
@@ -272,7 +273,8 @@ int run_incl(const EF& a, const EF& b, long alg, long via) {
 
 void op_incl(const Step& s) {
 	FAH& a = H(s, 0); FAH& b = H(s, 1); long alg = mod(s.arg(2), 3), via = s.arg(3) & 1;
-	const std::string site = std::string("fa_incl:") + ALG[alg] + (via ? ":cli" : ":api");
+	if (s.arg(3) == 2) { via = 2; alg = 0; }
+	const std::string site = std::string("fa_incl:") + ALG[alg] + (via == 2 ? ":default-overload" : via ? ":cli" : ":api");
 	api_begin(); api_site(site, BUDGET_HANG, 20000000);
 	int v = run_incl(*a.aut, *b.aut, alg, via);
 	api_end(); observe(uint64_t(v));
@@ -404,7 +406,7 @@ Plan plan_C09(Rng& r, const std::string& tier) {
 			int k = r.range(1, 3);
 			for (int i = 0; i < k; ++i) {
 				if (r.chance(1, 2)) g.out.push_back(gen::mk(c, "fa_incl_all", {a, b, long(r.below(100000))}));
-				else g.out.push_back(gen::mk(c, "fa_incl", {a, b, long(r.below(3)), long(r.below(2))}));
+				else g.out.push_back(gen::mk(c, "fa_incl", {a, b, long(r.below(3)), long(r.chance(1, 10) ? 2 : r.below(2))}));
 				if (r.chance(1, 6)) g.out.push_back(gen::mk(c, "fa_incl", {b, a, long(r.below(3)), long(r.below(2))}));
 			}
 		}
